@@ -137,6 +137,46 @@ func RunCase(es graphql.ExecutableSchema, c Case) Result {
 	return res
 }
 
+// rootKeys returns the response keys of the root object in the order they were written.
+func rootKeys(r Result) []string {
+	if len(r.Payloads) == 0 || len(r.Payloads[0].Data) == 0 {
+		return nil
+	}
+	dec := json.NewDecoder(bytes.NewReader(r.Payloads[0].Data))
+	var keys []string
+	depth := 0
+	expectKey := false
+	for {
+		t, err := dec.Token()
+		if err != nil {
+			return keys
+		}
+		switch v := t.(type) {
+		case json.Delim:
+			if v == '{' || v == '[' {
+				depth++
+				expectKey = v == '{' && depth == 1
+			} else {
+				depth--
+				expectKey = depth == 1
+			}
+		case string:
+			if depth == 1 && expectKey {
+				keys = append(keys, v)
+				expectKey = false
+				continue
+			}
+			if depth == 1 {
+				expectKey = true
+			}
+		default:
+			if depth == 1 {
+				expectKey = true
+			}
+		}
+	}
+}
+
 type introspectionOn struct{}
 
 func (introspectionOn) ExtensionName() string                          { return "VerifIntrospection" }
@@ -170,6 +210,16 @@ func Main(newES func(bind func(stub any, directives any, complexity any)) graphq
 		g := NewGen(es.Schema(), *seed, *profile)
 		for i := 0; i < *n; i++ {
 			c := g.Case(i)
+			if *profile == "c06" && i%3 == 0 {
+				// adversarial schedule: the root fields complete in REVERSE document order
+				pre := c
+				pre.Plan.Rates.Delay = 0
+				keys := rootKeys(RunCase(es, pre))
+				c.Plan.ExtraDelay = map[string]int{}
+				for j, k := range keys {
+					c.Plan.ExtraDelay[k] = (len(keys) - j) * 150
+				}
+			}
 			r := RunCase(es, c)
 			pj, _ := json.Marshal(c.Plan)
 			r.Plan = pj
